@@ -226,7 +226,7 @@ pub fn run(ctx: &Ctx) {
         check_inv,
     );
     let max_len = t.pick(400usize, 1500);
-    let n = t.pick(30_000u64, 600_000);
+    let n = t.pick(100_000u64, 1_000_000);
     ctx.generated("random", "inv", n, "1..max digits, scales +-2000, both signs, p weighted to 1..5 and 100", move || free_strategy(max_len), check_inv);
     ctx.generated("terminating", "inv", n, "x = 2^i*5^j with random sign/scale, p tiny or around the exact length", terminating_strategy, check_inv);
     ctx.generated("near-power-of-ten", "inv", n / 2, "x = 99..9, 99..98, 100..0, 100..01, 100..02 (1..160 digits)", near_pow10_strategy, check_inv);
